@@ -19,6 +19,12 @@ def main():
     if r.returncode:
         print("patch does not apply:\n" + r.stdout); return 2
     results = {}
+    # the evidence files committed under /verif must come from runs on the unchanged tree: keep them aside
+    saved = {}
+    for q in props:
+        f = os.path.join(VERIF, "evidence", f"{q}.json")
+        if os.path.exists(f):
+            saved[f] = open(f, "rb").read()
     try:
         for p in props:
             t0 = time.time()
@@ -38,6 +44,8 @@ def main():
         sh("git -C /repo checkout -- .")                 # the compiled helpers under numpoly/cfunctions are untracked
         # put the regenerated tables back to the unchanged tree's
         sh(f"/venv/bin/python -m harness.extract", cwd=VERIF)
+        for f, data in saved.items():
+            open(f, "wb").write(data)
     print(json.dumps(results))
     return 0
 
